@@ -151,7 +151,7 @@ def campaign_model(ck: Check, n: int, parts: tuple = ("valid", "tr", "acc"), for
 
     frng = Rng(ck.seed, f"{ck.prop}/{fork}-families")  # (not ck.rng.fork: the streams of the later campaigns stay as they were)
     off = frng.below(96)
-    for i in range(max(6, n // 4)):
+    for i in range(max(6, n // 6)):
         for gen, tag in ((lambda r, k: semfam.nullable_doc(r, k, kinds=semfam.MODELLED_NULLABLE_KINDS), "nullable"), (semfam.nested_allof_doc, "nested")):
             doc, feats, cand = gen(frng.fork(f"{tag}{i}"), off + i)
             docs.append((doc, {f"family:{tag}", *feats}))
@@ -849,7 +849,7 @@ def run(ck: Check) -> None:
     campaign_model(ck, 40 if quick else 400)
     campaign_focused(ck)
     campaign_random(ck, 70 if quick else 900)
-    campaign_family(ck, 14 if quick else 130, 10 if quick else 100)
+    campaign_family(ck, 13 if quick else 130, 8 if quick else 100)
     ck.search_hooks.append(search)
     known_findings(ck)
 
